@@ -54,6 +54,26 @@ def lp_dinf():
     return dict(c=c, G=G, h=h)
 
 
+def lp_dinf_eq():
+    # unbounded with an equality constraint and a small cost vector
+    c = matrix([-1e-3, -1e-3, 0.0])
+    G = -matrix([[1., 0., 0.], [0., 1., 0.], [0., 0., 1.]])
+    h = matrix([0., 0., 0.])
+    A = matrix([[1.0], [-1.0], [1.0]])
+    b = matrix([1.0])
+    return dict(c=c, G=G, h=h, A=A, b=b)
+
+
+def lp_pinf_eq():
+    # infeasible: x1 + x2 = -1 with x >= 0
+    c = matrix([1., 2.])
+    G = -matrix([[1., 0.], [0., 1.]])
+    h = matrix([0., 0.])
+    A = matrix([[1.0], [1.0]])
+    b = matrix([-1.0])
+    return dict(c=c, G=G, h=h, A=A, b=b)
+
+
 def socp1():
     c = matrix([-2., 1., 5.])
     G = matrix([[12., 13., 12., 3., 3., -1., 1.], [6., -3., -12., -6., 1.,
@@ -110,7 +130,8 @@ def lp_start_optimal_tiny_feastol():
 
 
 CONELP = [('lp1', lp1), ('lp_eq', lp_eq), ('lp_pinf', lp_pinf),
-          ('lp_dinf', lp_dinf), ('socp1', socp1), ('sdp1', sdp1),
+          ('lp_dinf', lp_dinf), ('lp_dinf_eq', lp_dinf_eq),
+          ('lp_pinf_eq', lp_pinf_eq), ('socp1', socp1), ('sdp1', sdp1),
           ('sdp_mixed', sdp_mixed), ('sdp_start_optimal', sdp_start_optimal),
           ('lp_start_optimal_tiny_feastol', lp_start_optimal_tiny_feastol)]
 
@@ -238,6 +259,40 @@ def check_conelp_result(pname, prob, sol, opts):
                  "infeasibility %r, dual infeasibility %r, gap %r, relative "
                  "gap %r (feastol %r abstol %r reltol %r)" % (
                      pname, p, d, g, rg, feastol, abstol, reltol))
+    from cvxopt import blas, base
+    A_, b_ = prob.get('A'), prob.get('b')
+
+    def nrm(v):
+        return blas.nrm2(v) if v is not None and len(v) else 0.0
+    if st == 'primal infeasible' and not dims['q'] and not dims['s']:
+        # documented: ||G'z + A'y|| / ( -(h'z + b'y) * max(1, ||c||) )
+        rx = matrix(0.0, c.size)
+        base.gemv(G, sol['z'], rx, trans='T')
+        den = -blas.dot(h, sol['z'])
+        if A_ is not None:
+            base.gemv(A_, sol['y'], rx, trans='T', beta=1.0)
+            den -= blas.dot(b_, sol['y'])
+        want = nrm(rx) / (den * max(1.0, nrm(c)))
+        got = sol['residual as primal infeasibility certificate']
+        if got is None or abs(got - want) > 1e-6 * max(1.0, want) + 1e-12:
+            fail('certificate-definition', '%s: reported pinfres %r, '
+                 'recomputed %r' % (pname, got, want))
+    if st == 'dual infeasible' and not dims['q'] and not dims['s']:
+        # documented: max( ||Gx + s|| / max(1,||h||), ||Ax|| / max(1,||b||) )
+        #             / (-c'x)
+        rz = matrix(sol['s'])
+        base.gemv(G, sol['x'], rz, beta=1.0)
+        t1 = nrm(rz) / max(1.0, nrm(h))
+        t2 = 0.0
+        if A_ is not None:
+            ry = matrix(0.0, b_.size)
+            base.gemv(A_, sol['x'], ry)
+            t2 = nrm(ry) / max(1.0, nrm(b_))
+        want = max(t1, t2) / -blas.dot(c, sol['x'])
+        got = sol['residual as dual infeasibility certificate']
+        if got is None or abs(got - want) > 1e-6 * max(1.0, want) + 1e-12:
+            fail('certificate-definition', '%s: reported dinfres %r, '
+                 'recomputed %r' % (pname, got, want))
     if st == 'primal infeasible':
         if sol['x'] is not None or sol['s'] is not None:
             fail('certificate-none-pattern', pname + ': x/s not None')
